@@ -129,8 +129,9 @@ Proof. exact has_passthrough_exact. Qed.
 Print Assumptions C07_has_passthrough_exact.
 
 (* the invariant "the paths of the hosts name backends of the model" cannot be dropped: the
-   state of the known finding (strict-host: the borrowed root backend went away) satisfies
-   all the others and has a dangling map value. C07_template_refs_closed is the _under_H
+   state of the strict-host finding (the borrowed root backend went away; repaired in /repo
+   by 423708d, kept here as a model-level regression) satisfies all the others and has a
+   dangling map value. C07_template_refs_closed is the _under_H
    variant, with the hypothesis spelled out in st_inv (inv_hostrefs). *)
 Theorem C07_template_refs_closed_without_host_backends_refuted :
   exists st : tstate, inv_rest st = true /\
